@@ -112,11 +112,13 @@ def parse_pattern(text):
     return ('block', t.body)
 
 
-def find(root, patterns, binding=None):
+def find(root, patterns, binding=None, nodes_out=None):
     """All patterns must match somewhere under `root` with one consistent
     binding.  Returns (binding, missing): binding dict if all matched (missing
     empty), else the best partial binding and the list of unmatched patterns."""
     pats = [(p, parse_pattern(p)) for p in patterns]
+
+    matched = []
 
     def rec(i, b):
         if i == len(pats):
@@ -131,18 +133,24 @@ def find(root, patterns, binding=None):
                         for k in range(len(body) - len(pn) + 1):
                             nb = _match_list(pn, body[k:k + len(pn)], b)
                             if nb is not None:
+                                matched.append(body[k])
                                 r = rec(i + 1, nb)
                                 if r is not None:
                                     return r
+                                matched.pop()
             return None
         for n in _candidates(root, kind == 'stmt'):
             nb = _match(pn, n, b)
             if nb is not None:
+                matched.append(n)
                 r = rec(i + 1, nb)
                 if r is not None:
                     return r
+                matched.pop()
         return None
     full = rec(0, dict(binding or {}))
+    if full is not None and nodes_out is not None:
+        nodes_out.extend(matched)
     if full is not None:
         return full, []
     # diagnose: which single patterns match at all
